@@ -167,7 +167,10 @@ pub fn check_case(case: &Case, ctx: &mut Ctx) {
                 Err(p) => ctx.fail("to-int/panic", case, format!("to_bigint / is_integer of {} panicked: {}", d.tok(), p)),
                 Ok((g, isint)) => {
                     ctx.more_evals(1);
-                    ctx.check(g.as_ref() == Some(&t), "to-int/to_bigint", case, || format!("to_bigint({}) = {:?} want {}", d.tok(), g, t));
+                    let held = ctx.check(g.as_ref() == Some(&t), "to-int/to_bigint", case, || format!("to_bigint({}) = {:?} want {}", d.tok(), g, t));
+                    if ctx.want_event() {
+                        ctx.log("trunc", &[d.tok()], serde_json::json!({}), g.as_ref().map(|x| x.to_string()).unwrap_or_default(), held);
+                    }
                     let want = model::frac_is_zero(&d);
                     ctx.check(isint == want, "is_integer/wrong", case, || format!("is_integer({}) = {} want {}", d.tok(), isint, want));
                 }
